@@ -1,51 +1,73 @@
 /-
   C13 — A gradient-descent update is exactly one step per parameter and clears gradients.
 -/
-import CorgiModel.Program
+import CorgiProofs.Optim
 
 set_option linter.unusedSectionVars false
 
 namespace Corgi
 variable {S : Type} [Add S] [Mul S] [Neg S] [Sub S] [ScalarOps S] [BEq S]
 
+/-- **The update, for every parameter list.**  Let the parameters have pairwise distinct nodes and
+    valid handles, and let every gradient have its parameter's length (guaranteed for gradients
+    produced by passes: C03).  Then `update` succeeds and, reading the final state:
+    a parameter without a gradient keeps its handle untouched; a parameter with gradient `g` becomes a
+    fresh leaf array (no stored operands, no gradient) of the same dimensions, tracked, whose values
+    are `old − lr·g` element by element — each parameter combined with its own gradient only,
+    whatever the number of parameters, their shapes and which of them are frozen. -/
+theorem C13_update (σ : State S) (lr : S) (ps : List Handle) (hnd : (ps.map (·.node)).Nodup)
+    (hbuf : ∀ p ∈ ps, p.buf < σ.bufs.size)
+    (hwf : ∀ p ∈ ps, (∀ x ∈ p.dims, 1 ≤ x) ∧ prod p.dims = (σ.tensorOf p).vals.length)
+    (halign : ∀ p ∈ ps, ∀ g, gradOf σ p = some g → g.vals.length = (σ.tensorOf p).vals.length)
+    (hsz : σ.grad.size = σ.nodes.size) :
+    ∃ σ' hs', gdUpdate σ lr ps = .ok (σ', hs') ∧
+      DrainOK σ' ps (ps.map (fun p => (gradOf σ p).isNone))
+        ((unfrozenBlocks σ ps).map (fun b => List.zipWith (fun x g => x - lr * g) b.1 b.2)) hs' := by
+  refine ⟨_, _, gdUpdate_spec σ lr ps hnd hbuf hwf halign, ?_⟩
+  apply drainSpec_ok
+  · exact blocksFit_stepped σ _ ps (fun p hp g hg => ⟨halign p hp g hg, (hwf p hp).2⟩)
+  · have := (gdGather_spec ps σ hnd)
+    -- gathering only clears gradient cells: sizes are unchanged
+    have hgs : ∀ (ps : List Handle) (σ : State S), (gdGather σ ps).1.grad.size = σ.grad.size ∧ (gdGather σ ps).1.nodes = σ.nodes := by
+      intro ps
+      induction ps with
+      | nil => intro σ; exact ⟨rfl, rfl⟩
+      | cons p ps ih =>
+        intro σ
+        simp only [gdGather]
+        cases σ.grad.getD p.node none with
+        | none => exact ih σ
+        | some g =>
+          have := ih (σ.setGrad p.node none)
+          simp only [State.setGrad, Array.size_setIfInBounds] at this
+          exact this
+    rw [(hgs ps σ).1, (hgs ps σ).2]; exact hsz
+
+/-- the gradients of the parameters are taken: afterwards none of the old parameter nodes holds one -/
+theorem C13_gradients_cleared (σ : State S) (ps : List Handle) (hnd : (ps.map (·.node)).Nodup) :
+    ∀ p ∈ ps, gradOf (gdGather σ ps).1 p = none := (gdGather_spec ps σ hnd).2.2.2.2.2
+
+/-- …and no other gradient cell is touched by the gathering. -/
+theorem C13_other_gradients_kept (σ : State S) (ps : List Handle) (hnd : (ps.map (·.node)).Nodup) (q : Handle)
+    (hq : ∀ p ∈ ps, p.node ≠ q.node) : gradOf (gdGather σ ps).1 q = gradOf σ q :=
+  (gdGather_spec ps σ hnd).2.2.2.2.1 q hq
+
 /-- The positional step distributes over parameters whose value and gradient buffers have the same
-    length: stepping the concatenation is concatenating the per-parameter steps.  (This is where the
-    alignment guaranteed by C03 — gradient shape = parameter shape — is needed.) -/
-theorem C13_step_blocks (f : S → S → S) :
-    ∀ (blocks : List (List S × List S)), (∀ b ∈ blocks, b.1.length = b.2.length) →
-      List.zipWith f (blocks.flatMap (·.1)) (blocks.flatMap (·.2)) = blocks.flatMap (fun b => List.zipWith f b.1 b.2)
-  | [], _ => by simp
-  | b :: bs, h => by
-    have hb : b.1.length = b.2.length := h b (by simp)
-    have ih := C13_step_blocks f bs (fun x hx => h x (by simp [hx]))
-    simp only [List.flatMap_cons]
-    rw [List.zipWith_append hb, ih]
+    length — and only then: this is where the alignment guaranteed by C03 is needed. -/
+theorem C13_step_blocks (f : S → S → S) (blocks : List (List S × List S)) (h : ∀ b ∈ blocks, b.1.length = b.2.length) :
+    List.zipWith f (blocks.flatMap (·.1)) (blocks.flatMap (·.2)) = (blocks.map (fun b => List.zipWith f b.1 b.2)).flatten :=
+  step_blocks f blocks h
 
-/-- A parameter without a gradient is left untouched (same handle), and gathering does not change
-    any buffer. -/
-theorem C13_frozen_first (σ : State S) (p : Handle) (ps : List Handle)
-    (h : σ.grad.getD p.node none = none) :
-    gdGather σ (p :: ps) =
-      ((gdGather σ ps).1, true :: (gdGather σ ps).2.1, (gdGather σ ps).2.2.1, (gdGather σ ps).2.2.2) := by
-  simp [gdGather, h]
-
-/-- A parameter with a gradient contributes its values and its gradient values at the same position
-    of the two flat buffers, and its gradient is taken (cleared). -/
-theorem C13_unfrozen_first (σ : State S) (p : Handle) (ps : List Handle) (g : Tensor S)
-    (h : σ.grad.getD p.node none = some g) :
-    let r := gdGather (σ.setGrad p.node none) ps
-    gdGather σ (p :: ps) = (r.1, false :: r.2.1, (σ.tensorOf p).vals ++ r.2.2.1, g.vals ++ r.2.2.2) := by
-  simp [gdGather, h]
-
-/-- Draining: a frozen parameter keeps its handle. -/
-theorem C13_drain_frozen (σ : State S) (p : Handle) (ps : List Handle) (fs : List Bool) (vals : List S)
-    (σ' : State S) (hs : List Handle) (h : gdDrain σ ps fs vals = .ok (σ', hs)) :
-    gdDrain σ (p :: ps) (true :: fs) vals = .ok (σ', p :: hs) := by
-  simp [gdDrain, h, bind, Except.bind, pure, Except.pure]
+/-- Without the alignment the statement is false in the model (positional drain): two parameters
+    `[1,2]`, `[3]` with gradients `[10]`, `[20,30]` — the second parameter is stepped by the first
+    parameter's missing entry. -/
+example : List.zipWith (fun (x g : Int) => x - g) ([1, 2] ++ [3]) ([10] ++ [20, 30]) = [-9, -18, -27]
+    ∧ (List.zipWith (fun (x g : Int) => x - g) [1, 2] [10]) ++ (List.zipWith (fun (x g : Int) => x - g) [3] [20, 30]) = [-9, -17] := by
+  decide
 
 end Corgi
 
+#print axioms Corgi.C13_update
+#print axioms Corgi.C13_gradients_cleared
+#print axioms Corgi.C13_other_gradients_kept
 #print axioms Corgi.C13_step_blocks
-#print axioms Corgi.C13_frozen_first
-#print axioms Corgi.C13_unfrozen_first
-#print axioms Corgi.C13_drain_frozen
